@@ -43,18 +43,173 @@ Fixpoint depth (n : nat) (tr : list lev) : nat :=
 Definition conflict (f1 : string) (k1 : akind) (f2 : string) (k2 : akind) : Prop :=
   f1 = f2 /\ (k1 = AW \/ k2 = AW \/ (k1 = AE /\ k2 = AE)).
 
+(* ---- helper: the two-state lock automaton of a non-nesting thread ---- *)
+(* [aut P d l]: scanning l from lock state d (false = not holding, true = holding), every
+   LAcq is taken when not holding, every LRel when holding, and every other event seen
+   while not holding satisfies P.  [fin d l] is the state reached. *)
+Fixpoint aut (P : lev -> Prop) (d : bool) (l : list lev) : Prop :=
+  match l with
+  | [] => True
+  | LAcq :: r => d = false /\ aut P true r
+  | LRel :: r => d = true /\ aut P false r
+  | e :: r => (d = false -> P e) /\ aut P d r
+  end.
+
+Fixpoint fin (d : bool) (l : list lev) : bool :=
+  match l with
+  | [] => d
+  | LAcq :: r => fin true r
+  | LRel :: r => fin false r
+  | _ :: r => fin d r
+  end.
+
+Definition b2n (b : bool) : nat := if b then 1 else 0.
+
+(* an event is allowed outside the lock of class c *)
+Definition Pc (c : class_skel) (e : lev) : Prop :=
+  forall f k, e = LAcc f k -> may_be_unlocked c f k = true.
+
+Lemma aut_mono : forall (P Q : lev -> Prop), (forall e, P e -> Q e) ->
+    forall l d, aut P d l -> aut Q d l.
+Proof.
+  intros P Q HPQ l; induction l as [|e l IH]; intros d H; simpl in *; [exact I|].
+  destruct e; destruct H as [H1 H2]; split; auto.
+Qed.
+
+Lemma fin_app : forall a d b, fin d (a ++ b) = fin (fin d a) b.
+Proof.
+  induction a as [|e a IH]; intros d b; simpl; [reflexivity|].
+  destruct e; apply IH.
+Qed.
+
+Lemma aut_app : forall P a d b, aut P d a -> aut P (fin d a) b -> aut P d (a ++ b).
+Proof.
+  intros P a; induction a as [|e a IH]; intros d b Ha Hb; simpl in *; [exact Hb|].
+  destruct e; destruct Ha as [H1 H2]; split; auto.
+Qed.
+
+Lemma aut_app_inv : forall P a d b, aut P d (a ++ b) -> aut P d a /\ aut P (fin d a) b.
+Proof.
+  intros P a; induction a as [|e a IH]; intros d b H; simpl in *; [split; [exact I|exact H]|].
+  destruct e; destruct H as [H1 H2]; apply IH in H2; destruct H2 as [H2 H3];
+    (split; [split; assumption|assumption]).
+Qed.
+
+Lemma aut_depth : forall P l d, aut P d l -> depth (b2n d) l = b2n (fin d l).
+Proof.
+  intros P l; induction l as [|e l IH]; intros d H; simpl in *; [reflexivity|].
+  destruct e; destruct H as [H1 H2].
+  - subst d. simpl. apply (IH true H2).
+  - subst d. simpl. apply (IH false H2).
+  - apply (IH d H2).
+  - apply (IH d H2).
+Qed.
+
+Lemma depth_app : forall a n b, depth n (a ++ b) = depth (depth n a) b.
+Proof.
+  induction a as [|e a IH]; intros n b; simpl; [reflexivity|].
+  destruct e; apply IH.
+Qed.
+
+(* every trace of a skeleton without nested lock regions runs the automaton from the
+   ambient state h back to h, and the accesses it makes while not holding are exactly
+   "false"-flagged elements of [accesses h s] *)
+Lemma sk_aut : forall s tr, sk_trace s tr -> forall h, nested h s = false ->
+    aut (fun e => forall f k, e = LAcc f k -> In (f, k, false) (accesses h s)) h tr /\
+    fin h tr = h.
+Proof.
+  intros s tr H; induction H; intros h Hn; simpl in *.
+  - split; [|reflexivity]. split; [|exact I].
+    intros Hh f0 k0 E. inversion E; subst. left; reflexivity.
+  - split; [|reflexivity]. split; [|exact I]. intros _ f k E; discriminate E.
+  - split; [exact I|reflexivity].
+  - split; [exact I|reflexivity].
+  - apply orb_false_elim in Hn. destruct Hn as [Hna Hnb].
+    destruct (IHsk_trace1 h Hna) as [A1 F1]. destruct (IHsk_trace2 h Hnb) as [A2 F2].
+    split.
+    + apply aut_app.
+      * eapply aut_mono; [|exact A1]. intros e He f k E. apply in_or_app. left. eauto.
+      * rewrite F1. eapply aut_mono; [|exact A2]. intros e He f k E. apply in_or_app. right. eauto.
+    + rewrite fin_app, F1. exact F2.
+  - apply orb_false_elim in Hn. destruct Hn as [Hh Hnb]. subst h.
+    destruct (IHsk_trace true Hnb) as [A F].
+    split.
+    + split; [reflexivity|]. apply aut_app.
+      * eapply aut_mono; [|exact A]. intros e He; exact He.
+      * rewrite F. simpl. split; [reflexivity|exact I].
+    + rewrite fin_app, F. reflexivity.
+  - split; [exact I|reflexivity].
+  - destruct (IHsk_trace1 h Hn) as [A1 F1]. destruct (IHsk_trace2 h Hn) as [A2 F2].
+    split.
+    + apply aut_app.
+      * eapply aut_mono; [|exact A1]. intros e He; exact He.
+      * rewrite F1. exact A2.
+    + rewrite fin_app, F1. exact F2.
+  - apply orb_false_elim in Hn. destruct Hn as [Hna Hnb].
+    destruct (IHsk_trace h Hna) as [A F]. split; [|exact F].
+    eapply aut_mono; [|exact A]. intros e He f k E. apply in_or_app. left. eauto.
+  - apply orb_false_elim in Hn. destruct Hn as [Hna Hnb].
+    destruct (IHsk_trace h Hnb) as [A F]. split; [|exact F].
+    eapply aut_mono; [|exact A]. intros e He f k E. apply in_or_app. right. eauto.
+Qed.
+
+Lemma flat_map_nil : forall (A B : Type) (g : A -> list B) (l : list A),
+    flat_map g l = [] -> forall x, In x l -> g x = [].
+Proof.
+  intros A B g l; induction l as [|a l IH]; intros H x Hin; simpl in *; [contradiction|].
+  apply app_eq_nil in H. destruct H as [H1 H2].
+  destruct Hin as [<-|Hin]; [exact H1|apply IH; assumption].
+Qed.
+
+Lemma unguarded_nil : forall c s f k,
+    unguarded c s = [] -> In (f, k, false) (accesses false s) -> may_be_unlocked c f k = true.
+Proof.
+  intros c s f k H Hin. unfold unguarded in H.
+  pose proof (flat_map_nil _ _ _ _ H _ Hin) as E. simpl in E.
+  destruct (may_be_unlocked c f k); [reflexivity|discriminate E].
+Qed.
+
+Lemma guarded_aut : forall c m tr,
+    method_guarded c m = true -> sk_trace (snd m) tr ->
+    aut (Pc c) false tr /\ fin false tr = false.
+Proof.
+  intros c m tr G T. unfold method_guarded in G.
+  destruct (unguarded c (snd m)) eqn:U; [|discriminate G].
+  apply negb_true_iff in G.
+  destruct (sk_aut _ _ T false G) as [A F]. split; [|exact F].
+  eapply aut_mono; [|exact A]. intros e He f k E.
+  eapply unguarded_nil; [exact U|]. apply He; exact E.
+Qed.
+
 (* ---- local guarantee of a guarded method ---- *)
 (* In every trace of a method that passes the computed obligation, an access that may not be
    made unlocked is made at lock depth exactly 1, and the trace returns to depth 0. *)
 Theorem guarded_method_holds_lock : forall c m tr p f k q,
     method_guarded c m = true -> sk_trace (snd m) tr -> tr = p ++ LAcc f k :: q ->
     may_be_unlocked c f k = false -> depth 0 p = 1.
-Admitted.
+Proof.
+  intros c m tr p f k q G T E M. subst tr.
+  destruct (guarded_aut _ _ _ G T) as [A _].
+  apply aut_app_inv in A. destruct A as [A1 A2].
+  simpl in A2. destruct A2 as [A2 _].
+  apply aut_depth in A1. simpl in A1.
+  destruct (fin false p) eqn:Ef.
+  - exact A1.
+  - exfalso. specialize (A2 eq_refl f k eq_refl). congruence.
+Qed.
 
 Theorem guarded_method_balanced : forall c m tr,
     method_guarded c m = true -> sk_trace (snd m) tr ->
     depth 0 tr = 0 /\ (forall p q, tr = p ++ q -> depth 0 p <= 1).
-Admitted.
+Proof.
+  intros c m tr G T.
+  destruct (guarded_aut _ _ _ G T) as [A F].
+  split.
+  - pose proof (aut_depth _ _ _ A) as D. simpl in D. rewrite F in D. exact D.
+  - intros p q E. subst tr. apply aut_app_inv in A. destruct A as [A1 _].
+    apply aut_depth in A1. simpl in A1. rewrite A1.
+    destruct (fin false p); simpl; lia.
+Qed.
 
 (* ====================================================================== *)
 (* 2. the lock-level machine: interleavings of local traces                *)
@@ -85,6 +240,168 @@ Inductive prog_trace (c : class_skel) : list lev -> Prop :=
 Definition thread_ok (c : class_skel) (l : list lev) : Prop :=
   exists full, prog_trace c full /\ exists rest, full = l ++ rest.
 
+(* ---- helpers for C07 ---- *)
+Lemma holder_app : forall a h b,
+    holder_after h (a ++ b) =
+    match holder_after h a with Some h' => holder_after h' b | None => None end.
+Proof.
+  induction a as [|[t e] a IH]; intros h b; simpl; [reflexivity|].
+  destruct e; try apply IH.
+  - destruct h; [reflexivity|apply IH].
+  - destruct h as [t'|]; [|reflexivity].
+    destruct (Nat.eqb t t'); [apply IH|reflexivity].
+Qed.
+
+Lemma proj_app : forall t a b, proj t (a ++ b) = proj t a ++ proj t b.
+Proof. intros t a b. unfold proj. rewrite filter_app, map_app. reflexivity. Qed.
+
+(* local depth of thread t as seen from the global holder *)
+Definition hdepth (t : tid) (h : option tid) : nat :=
+  match h with Some t' => if Nat.eqb t' t then 1 else 0 | None => 0 end.
+
+(* under the mutex protocol alone, a thread's local lock depth is 1 iff it is the holder *)
+Lemma holder_depth : forall pre h, holder_after None pre = Some h ->
+    forall t, depth 0 (proj t pre) = hdepth t h.
+Proof.
+  induction pre as [|x pre IH] using rev_ind; intros h H t.
+  - simpl in H. inversion H; subst. reflexivity.
+  - rewrite holder_app in H.
+    destruct (holder_after None pre) as [h0|] eqn:E; [|discriminate H].
+    specialize (IH h0 eq_refl t).
+    rewrite proj_app, depth_app, IH.
+    destruct x as [t0 e]. unfold proj. simpl.
+    destruct (Nat.eqb t0 t) eqn:Et; simpl.
+    + apply Nat.eqb_eq in Et. subst t0.
+      destruct e; simpl in H.
+      * destruct h0; [discriminate H|]. inversion H; subst. simpl.
+        rewrite Nat.eqb_refl. reflexivity.
+      * destruct h0 as [t'|]; [|discriminate H].
+        destruct (Nat.eqb t t') eqn:E2; [|discriminate H].
+        inversion H; subst. apply Nat.eqb_eq in E2. subst t'. simpl.
+        rewrite Nat.eqb_refl. reflexivity.
+      * inversion H; subst. reflexivity.
+      * inversion H; subst. reflexivity.
+    + destruct e; simpl in H.
+      * destruct h0; [discriminate H|]. inversion H; subst. simpl.
+        rewrite Et. reflexivity.
+      * destruct h0 as [t'|]; [|discriminate H].
+        destruct (Nat.eqb t0 t') eqn:E2; [|discriminate H].
+        inversion H; subst. apply Nat.eqb_eq in E2. subst t'. simpl.
+        rewrite Et. reflexivity.
+      * inversion H; subst. reflexivity.
+      * inversion H; subst. reflexivity.
+Qed.
+
+(* the holder changes from t1 to something else only through an LRel of t1 *)
+Lemma first_release : forall m t1 h', holder_after (Some t1) m = Some h' -> h' <> Some t1 ->
+    exists a b, m = a ++ (t1, LRel) :: b /\ holder_after None b = Some h'.
+Proof.
+  induction m as [|[t e] m IH]; intros t1 h' H Hne; simpl in H.
+  - inversion H; subst. exfalso; apply Hne; reflexivity.
+  - destruct e.
+    + discriminate H.
+    + destruct (Nat.eqb t t1) eqn:E; [|discriminate H].
+      apply Nat.eqb_eq in E. subst t. exists [], m. split; [reflexivity|exact H].
+    + destruct (IH _ _ H Hne) as [a [b [E Hb]]].
+      exists ((t, LAcc f k) :: a), b. split; [rewrite E; reflexivity|exact Hb].
+    + destruct (IH _ _ H Hne) as [a [b [E Hb]]].
+      exists ((t, LClk) :: a), b. split; [rewrite E; reflexivity|exact Hb].
+Qed.
+
+(* t2 becomes the holder only through an LAcq of t2 *)
+Lemma find_acq : forall m h t2, holder_after h m = Some (Some t2) ->
+    h = Some t2 \/ exists a b, m = a ++ (t2, LAcq) :: b.
+Proof.
+  induction m as [|[t e] m IH]; intros h t2 H; simpl in H.
+  - inversion H; subst. left; reflexivity.
+  - destruct e.
+    + destruct h; [discriminate H|].
+      destruct (IH _ _ H) as [X|[a [b E]]].
+      * inversion X; subst. right. exists [], m. reflexivity.
+      * right. exists ((t, LAcq) :: a), b. rewrite E; reflexivity.
+    + destruct h as [t'|]; [|discriminate H].
+      destruct (Nat.eqb t t'); [|discriminate H].
+      destruct (IH _ _ H) as [X|[a [b E]]]; [discriminate X|].
+      right. exists ((t, LRel) :: a), b. rewrite E; reflexivity.
+    + destruct (IH _ _ H) as [X|[a [b E]]]; [left; exact X|].
+      right. exists ((t, LAcc f k) :: a), b. rewrite E; reflexivity.
+    + destruct (IH _ _ H) as [X|[a [b E]]]; [left; exact X|].
+      right. exists ((t, LClk) :: a), b. rewrite E; reflexivity.
+Qed.
+
+Lemma nth_mid : forall (A : Type) (l1 : list A) a l2 n,
+    n = length l1 -> nth_error (l1 ++ a :: l2) n = Some a.
+Proof.
+  intros A l1 a l2 n E. subst n. rewrite nth_error_app2 by lia.
+  rewrite Nat.sub_diag. reflexivity.
+Qed.
+
+Lemma akind_eqb_refl : forall k, akind_eqb k k = true.
+Proof. destruct k; reflexivity. Qed.
+
+Lemma has_kind_in : forall c f k,
+    In (f, k) (map (fun a => (fst (fst a), snd (fst a))) (all_accesses c)) ->
+    has_kind c f k = true.
+Proof.
+  intros c f k H. apply in_map_iff in H. destruct H as [[[f' k'] b] [E Hin]].
+  simpl in E. inversion E; subst. unfold has_kind. apply existsb_exists.
+  exists (f, k, b). split; [exact Hin|].
+  rewrite String.eqb_refl, akind_eqb_refl. reflexivity.
+Qed.
+
+(* both sides of a conflict need the lock *)
+Lemma conflict_guard : forall c f1 k1 f2 k2,
+    conflict f1 k1 f2 k2 ->
+    In (f1, k1) (map (fun a => (fst (fst a), snd (fst a))) (all_accesses c)) ->
+    In (f2, k2) (map (fun a => (fst (fst a), snd (fst a))) (all_accesses c)) ->
+    may_be_unlocked c f1 k1 = false /\ may_be_unlocked c f2 k2 = false.
+Proof.
+  intros c f1 k1 f2 k2 [Ef Hk] In1 In2. subst f2.
+  destruct Hk as [H|[H|[H1 H2]]]; subst.
+  - split; [reflexivity|]. destruct k2; simpl; try reflexivity.
+    rewrite (has_kind_in _ _ _ In1). reflexivity.
+  - split; [|reflexivity]. destruct k1; simpl; try reflexivity.
+    rewrite (has_kind_in _ _ _ In2). reflexivity.
+  - split; reflexivity.
+Qed.
+
+(* a thread of a guarded class runs the two-state automaton *)
+Lemma prog_aut : forall c full, class_guarded c = true -> prog_trace c full ->
+    aut (Pc c) false full /\ fin false full = false.
+Proof.
+  intros c full G H; induction H as [|m tr rest Hin Htr Hrest IH].
+  - split; [exact I|reflexivity].
+  - unfold class_guarded in G. pose proof (proj1 (forallb_forall _ _) G m Hin) as Gm.
+    destruct (guarded_aut _ _ _ Gm Htr) as [A F]. destruct IH as [A' F'].
+    split.
+    + apply aut_app; [exact A|]. rewrite F. exact A'.
+    + rewrite fin_app, F. exact F'.
+Qed.
+
+(* a guard-needing access of thread t is made while t is the global holder *)
+Lemma access_holds : forall c ex l1 l2 t f k h,
+    class_guarded c = true -> thread_ok c (proj t ex) ->
+    ex = l1 ++ (t, LAcc f k) :: l2 -> may_be_unlocked c f k = false ->
+    holder_after None l1 = Some h -> h = Some t.
+Proof.
+  intros c ex l1 l2 t f k h G [full [PT [rest E]]] Eex M H.
+  destruct (prog_aut _ _ G PT) as [A _].
+  subst ex. rewrite proj_app in E.
+  assert (Ep : proj t ((t, LAcc f k) :: l2) = LAcc f k :: proj t l2).
+  { unfold proj. simpl. rewrite Nat.eqb_refl. reflexivity. }
+  rewrite Ep in E. rewrite <- app_assoc in E. subst full.
+  apply aut_app_inv in A. destruct A as [A1 A2].
+  simpl in A2. destruct A2 as [A2 _].
+  pose proof (holder_depth _ _ H t) as D.
+  apply aut_depth in A1. simpl in A1.
+  destruct (fin false (proj t l1)).
+  - simpl in A1. rewrite A1 in D.
+    destruct h as [t'|]; simpl in D; [|discriminate D].
+    destruct (Nat.eqb t' t) eqn:Et; [|discriminate D].
+    apply Nat.eqb_eq in Et. subst t'. reflexivity.
+  - exfalso. specialize (A2 eq_refl f k eq_refl). congruence.
+Qed.
+
 (* ---- C07 ---- *)
 (* Any two conflicting accesses made by different threads are separated by an unlock of the
    first thread followed by a lock of the second: they are ordered by happens-before. *)
@@ -97,13 +414,90 @@ Theorem guarded_class_is_race_free : forall c ex i j t1 t2 f1 k1 f2 k2,
     In (f2, k2) (map (fun a => (fst (fst a), snd (fst a))) (all_accesses c)) ->
     exists r q, i < r /\ r < q /\ q < j /\
                 nth_error ex r = Some (t1, LRel) /\ nth_error ex q = Some (t2, LAcq).
-Admitted.
+Proof.
+  intros c ex i j t1 t2 f1 k1 f2 k2 G L TO Hij Hi Hj Ht C In1 In2.
+  destruct (conflict_guard _ _ _ _ _ C In1 In2) as [M1 M2].
+  (* split ex = l1 ++ x :: m1 ++ y :: m2 *)
+  destruct (nth_error_split _ _ Hi) as [l1 [l2 [E1 Len1]]].
+  assert (Hj' : nth_error l2 (j - i - 1) = Some (t2, LAcc f2 k2)).
+  { rewrite E1 in Hj. rewrite nth_error_app2 in Hj by lia. rewrite Len1 in Hj.
+    destruct (j - i) as [|d] eqn:Ed; [lia|]. simpl in Hj.
+    replace (S d - 1) with d by lia. exact Hj. }
+  destruct (nth_error_split _ _ Hj') as [m1 [m2 [E2 Len2]]].
+  unfold lock_ok in L.
+  assert (Eex : ex = (l1 ++ (t1, LAcc f1 k1) :: m1) ++ (t2, LAcc f2 k2) :: m2).
+  { rewrite E1, E2. rewrite <- app_assoc. reflexivity. }
+  (* holders *)
+  destruct (holder_after None (l1 ++ (t1, LAcc f1 k1) :: m1)) as [hb|] eqn:Hb.
+  2:{ exfalso. apply L. rewrite Eex, holder_app, Hb. reflexivity. }
+  assert (Ehb : hb = Some t2).
+  { eapply access_holds; [exact G|apply (TO t2)|exact Eex|exact M2|exact Hb]. }
+  subst hb.
+  rewrite holder_app in Hb.
+  destruct (holder_after None l1) as [ha|] eqn:Ha; [|discriminate Hb].
+  assert (Eha : ha = Some t1).
+  { eapply access_holds; [exact G|apply (TO t1)|exact E1|exact M1|exact Ha]. }
+  subst ha. simpl in Hb.
+  assert (Hne : Some t2 <> Some t1) by (intro X; inversion X; subst; apply Ht; reflexivity).
+  destruct (first_release _ _ _ Hb Hne) as [a [b [Em1 Hb']]].
+  destruct (find_acq _ _ _ Hb') as [X|[a' [b' Eb]]]; [discriminate X|].
+  exists (length l1 + 1 + length a), (length l1 + 1 + length a + 1 + length a').
+  assert (Lm1 : length m1 = length a + 1 + length a' + 1 + length b').
+  { rewrite Em1, Eb. rewrite !app_length. simpl. rewrite !app_length. simpl. lia. }
+  split; [lia|]. split; [lia|]. split; [lia|]. split.
+  - assert (Er : ex = (l1 ++ (t1, LAcc f1 k1) :: a) ++ (t1, LRel) :: (b ++ (t2, LAcc f2 k2) :: m2)).
+    { rewrite E1, E2, Em1. repeat (rewrite <- app_assoc; simpl). reflexivity. }
+    rewrite Er at 1.
+    apply (nth_mid _ (l1 ++ (t1, LAcc f1 k1) :: a) (t1, LRel)).
+    rewrite app_length. simpl. unfold gev, tid in *. lia.
+  - assert (Eq : ex = (l1 ++ (t1, LAcc f1 k1) :: a ++ (t1, LRel) :: a') ++ (t2, LAcq) :: (b' ++ (t2, LAcc f2 k2) :: m2)).
+    { rewrite E1, E2, Em1, Eb. repeat (rewrite <- app_assoc; simpl). reflexivity. }
+    rewrite Eq at 1.
+    apply (nth_mid _ (l1 ++ (t1, LAcc f1 k1) :: a ++ (t1, LRel) :: a') (t2, LAcq)).
+    rewrite app_length. simpl. rewrite app_length. simpl. unfold gev, tid in *. lia.
+Qed.
+
+Lemma sk_acc_in : forall s tr, sk_trace s tr -> forall f k, In (LAcc f k) tr ->
+    forall h, exists b, In (f, k, b) (accesses h s).
+Proof.
+  intros s tr H; induction H; intros f0 k0 Hin h; simpl in *.
+  - destruct Hin as [E|[]]. inversion E; subst. exists h. left; reflexivity.
+  - destruct Hin as [E|[]]. discriminate E.
+  - contradiction.
+  - contradiction.
+  - apply in_app_or in Hin. destruct Hin as [Hin|Hin].
+    + destruct (IHsk_trace1 _ _ Hin h) as [b0 Hb]. exists b0. apply in_or_app. left; exact Hb.
+    + destruct (IHsk_trace2 _ _ Hin h) as [b0 Hb]. exists b0. apply in_or_app. right; exact Hb.
+  - destruct Hin as [E|Hin]; [discriminate E|].
+    apply in_app_or in Hin. destruct Hin as [Hin|[E|[]]]; [|discriminate E].
+    apply (IHsk_trace _ _ Hin true).
+  - contradiction.
+  - apply in_app_or in Hin. destruct Hin as [Hin|Hin].
+    + apply (IHsk_trace1 _ _ Hin h).
+    + apply (IHsk_trace2 _ _ Hin h).
+  - destruct (IHsk_trace _ _ Hin h) as [b0 Hb]. exists b0. apply in_or_app. left; exact Hb.
+  - destruct (IHsk_trace _ _ Hin h) as [b0 Hb]. exists b0. apply in_or_app. right; exact Hb.
+Qed.
+
+Lemma prog_acc_in : forall c full f k, prog_trace c full -> In (LAcc f k) full ->
+    In (f, k) (map (fun a => (fst (fst a), snd (fst a))) (all_accesses c)).
+Proof.
+  intros c full f k H; induction H as [|m tr rest Hin Htr Hrest IH]; intros Hacc.
+  - contradiction.
+  - apply in_app_or in Hacc. destruct Hacc as [Hacc|Hacc]; [|apply IH; exact Hacc].
+    destruct (sk_acc_in _ _ Htr _ _ Hacc false) as [b0 Hb].
+    apply in_map_iff. exists (f, k, b0). split; [reflexivity|].
+    unfold all_accesses. apply in_flat_map. exists m. split; assumption.
+Qed.
 
 (* accesses that appear in a thread's trace are accesses of the class *)
 Lemma trace_accesses_in_class : forall c l f k,
     thread_ok c l -> In (LAcc f k) l ->
     In (f, k) (map (fun a => (fst (fst a), snd (fst a))) (all_accesses c)).
-Admitted.
+Proof.
+  intros c l f k [full [PT [rest E]]] Hin.
+  eapply prog_acc_in; [exact PT|]. rewrite E. apply in_or_app. left; exact Hin.
+Qed.
 
 (* ---- shape of an atomic method (C06 obligation) ---- *)
 (* A method passing [method_atomic] does all its guard-needing accesses inside ONE
@@ -113,13 +507,123 @@ Admitted.
 Definition quiet (c : class_skel) (l : list lev) : Prop :=
   forall e, In e l -> e <> LAcq /\ e <> LRel /\
                       (forall f k, e = LAcc f k -> may_be_unlocked c f k = true).
+(* number of lock acquisitions in a local trace *)
+Fixpoint count_acq (l : list lev) : nat :=
+  match l with
+  | [] => 0
+  | LAcq :: r => S (count_acq r)
+  | _ :: r => count_acq r
+  end.
+
+Lemma count_app : forall a b, count_acq (a ++ b) = count_acq a + count_acq b.
+Proof.
+  induction a as [|e a IH]; intros b; simpl; [reflexivity|].
+  destruct e; rewrite IH; reflexivity.
+Qed.
+
+(* with at most one region on the worst path (so none inside a loop), [regions] bounds the
+   number of acquisitions of every trace *)
+Lemma sk_count : forall s tr, sk_trace s tr -> regions s <= 1 -> count_acq tr <= regions s.
+Proof.
+  intros s tr H; induction H; intros R; simpl in *.
+  - lia.
+  - lia.
+  - lia.
+  - lia.
+  - rewrite count_app.
+    assert (Ra : regions a <= 1) by lia. assert (Rb : regions b <= 1) by lia.
+    specialize (IHsk_trace1 Ra). specialize (IHsk_trace2 Rb). lia.
+  - rewrite count_app. simpl.
+    assert (Rb : regions b <= 1) by lia. specialize (IHsk_trace Rb). lia.
+  - lia.
+  - rewrite count_app.
+    assert (Rb : regions b <= 1) by lia.
+    specialize (IHsk_trace1 Rb). specialize (IHsk_trace2 R). lia.
+  - assert (Ra : regions a <= 1) by lia. specialize (IHsk_trace Ra). lia.
+  - assert (Rb : regions b <= 1) by lia. specialize (IHsk_trace Rb). lia.
+Qed.
+
+Lemma quiet_nil : forall c, quiet c [].
+Proof. intros c e []. Qed.
+
+Lemma quiet_cons : forall c e l,
+    e <> LAcq -> e <> LRel -> Pc c e -> quiet c l -> quiet c (e :: l).
+Proof.
+  intros c e l H1 H2 H3 Hq e' [<-|Hin].
+  - split; [exact H1|]. split; [exact H2|]. exact H3.
+  - apply Hq; exact Hin.
+Qed.
+
+(* no acquisition and not holding: everything is quiet *)
+Lemma aut_quiet0 : forall c l, aut (Pc c) false l -> count_acq l = 0 -> quiet c l.
+Proof.
+  intros c l; induction l as [|e l IH]; intros A Cn; [apply quiet_nil|].
+  destruct e; simpl in A, Cn; destruct A as [A1 A2].
+  - discriminate Cn.
+  - discriminate A1.
+  - apply quiet_cons; [discriminate|discriminate|exact (A1 eq_refl)|apply IH; assumption].
+  - apply quiet_cons; [discriminate|discriminate|exact (A1 eq_refl)|apply IH; assumption].
+Qed.
+
+(* holding, no further acquisition, ends not holding: a lock-free body, the release, and a
+   quiet tail *)
+Lemma aut_body : forall c l, aut (Pc c) true l -> count_acq l = 0 -> fin true l = false ->
+    exists body post, l = body ++ LRel :: post /\
+                      (forall e, In e body -> e <> LAcq /\ e <> LRel) /\ quiet c post.
+Proof.
+  intros c l; induction l as [|e l IH]; intros A Cn F; simpl in F; [discriminate F|].
+  destruct e; simpl in A, Cn, F; destruct A as [A1 A2].
+  - discriminate Cn.
+  - exists [], l. split; [reflexivity|]. split; [intros e []|].
+    apply aut_quiet0; assumption.
+  - destruct (IH A2 Cn F) as [body [post [E [Hb Hq]]]].
+    exists (LAcc f k :: body), post. split; [rewrite E; reflexivity|]. split; [|exact Hq].
+    intros e [<-|Hin]; [split; discriminate|apply Hb; exact Hin].
+  - destruct (IH A2 Cn F) as [body [post [E [Hb Hq]]]].
+    exists (LClk :: body), post. split; [rewrite E; reflexivity|]. split; [|exact Hq].
+    intros e [<-|Hin]; [split; discriminate|apply Hb; exact Hin].
+Qed.
+
+Lemma aut_shape : forall c l, aut (Pc c) false l -> count_acq l <= 1 -> fin false l = false ->
+    quiet c l \/
+    exists pre body post, l = pre ++ LAcq :: body ++ LRel :: post /\
+                          quiet c pre /\ quiet c post /\
+                          (forall e, In e body -> e <> LAcq /\ e <> LRel).
+Proof.
+  intros c l; induction l as [|e l IH]; intros A Cn F; [left; apply quiet_nil|].
+  destruct e; simpl in A, Cn, F; destruct A as [A1 A2].
+  - right. assert (C0 : count_acq l = 0) by lia.
+    destruct (aut_body _ _ A2 C0 F) as [body [post [E [Hb Hq]]]].
+    exists [], body, post. split; [rewrite E; reflexivity|].
+    split; [apply quiet_nil|]. split; assumption.
+  - discriminate A1.
+  - destruct (IH A2 Cn F) as [Hq|[pre [body [post [E [Hpre [Hpost Hb]]]]]]].
+    + left. apply quiet_cons; [discriminate|discriminate|exact (A1 eq_refl)|exact Hq].
+    + right. exists (LAcc f k :: pre), body, post. split; [rewrite E; reflexivity|].
+      split; [|split; assumption].
+      apply quiet_cons; [discriminate|discriminate|exact (A1 eq_refl)|exact Hpre].
+  - destruct (IH A2 Cn F) as [Hq|[pre [body [post [E [Hpre [Hpost Hb]]]]]]].
+    + left. apply quiet_cons; [discriminate|discriminate|exact (A1 eq_refl)|exact Hq].
+    + right. exists (LClk :: pre), body, post. split; [rewrite E; reflexivity|].
+      split; [|split; assumption].
+      apply quiet_cons; [discriminate|discriminate|exact (A1 eq_refl)|exact Hpre].
+Qed.
+
 Theorem atomic_method_shape : forall c m tr,
     method_atomic c m = true -> sk_trace (snd m) tr ->
     quiet c tr \/
     exists pre body post, tr = pre ++ LAcq :: body ++ LRel :: post /\
                           quiet c pre /\ quiet c post /\
                           (forall e, In e body -> e <> LAcq /\ e <> LRel).
-Admitted.
+Proof.
+  intros c m tr H T. unfold method_atomic in H.
+  apply andb_true_iff in H. destruct H as [H _].
+  apply andb_true_iff in H. destruct H as [G R].
+  apply Nat.leb_le in R.
+  destruct (guarded_aut _ _ _ G T) as [A F].
+  pose proof (sk_count _ _ T R) as Cn.
+  apply aut_shape; [exact A|lia|exact F].
+Qed.
 
 (* ====================================================================== *)
 (* 3. linearizability of the lock-level machine (C06)                      *)
@@ -185,6 +689,118 @@ Section Lin.
     | (_, o) :: rest => snd (step s o) :: seq_results (fst (step s o)) rest
     end.
 
+  (* ---- helpers: the accumulators of [lin] after scanning a prefix ---- *)
+  Fixpoint scan (s : St) (pend : tid -> option Op) (ex : list cev) : St * (tid -> option Op) :=
+    match ex with
+    | [] => (s, pend)
+    | CInv t o :: r => scan s (fun t' => if Nat.eqb t' t then Some o else pend t') r
+    | CBody t :: r => match pend t with
+                      | Some o => scan (fst (step s o)) pend r
+                      | None => scan s pend r
+                      end
+    | _ :: r => scan s pend r
+    end.
+
+  Lemma lin_app : forall ex s pend ex',
+      lin s pend (ex ++ ex') =
+      lin s pend ex ++ lin (fst (scan s pend ex)) (snd (scan s pend ex)) ex'.
+  Proof.
+    induction ex as [|e ex IH]; intros s pend ex'; simpl; [reflexivity|].
+    destruct e; simpl; try apply IH.
+    destruct (pend t); simpl; [f_equal|]; apply IH.
+  Qed.
+
+  Lemma scan_app : forall ex s pend ex',
+      scan s pend (ex ++ ex') = scan (fst (scan s pend ex)) (snd (scan s pend ex)) ex'.
+  Proof.
+    induction ex as [|e ex IH]; intros s pend ex'; simpl; [reflexivity|].
+    destruct e; simpl; try apply IH.
+    destruct (pend t); apply IH.
+  Qed.
+
+  Lemma scan_fold : forall ex s pend,
+      fst (scan s pend ex) =
+      fold_left (fun st c => fst (step st (snd (fst c)))) (lin s pend ex) s.
+  Proof.
+    induction ex as [|e ex IH]; intros s pend; simpl; [reflexivity|].
+    destruct e; simpl; try apply IH.
+    destruct (pend t); simpl; apply IH.
+  Qed.
+
+  Lemma lin_results : forall ex s pend,
+      map snd (lin s pend ex) = seq_results s (map fst (lin s pend ex)).
+  Proof.
+    induction ex as [|e ex IH]; intros s pend; simpl; [reflexivity|].
+    destruct e; simpl; try apply IH.
+    destruct (pend t); simpl; [f_equal|]; apply IH.
+  Qed.
+
+  (* the machine state agrees with the scan: same model state, and a call that is invoked
+     or holds the lock is the pending operation of its thread *)
+  Lemma mexec_inv : forall s0 ex st, mexec (minit s0) ex st ->
+      sigma st = fst (scan s0 (fun _ => None) ex) /\
+      (forall t o, ph st t = Invoked o \/ ph st t = Locked o ->
+                   snd (scan s0 (fun _ => None) ex) t = Some o).
+  Proof.
+    intros s0 ex st H. remember (minit s0) as si eqn:Esi.
+    induction H as [s|s ex s1 e s2 Hex IH Hstep].
+    - subst s. simpl. split; [reflexivity|]. intros t o [X|X]; discriminate X.
+    - destruct (IH Esi) as [Hs Hp]. clear IH. rewrite scan_app.
+      destruct (scan s0 (fun _ => None) ex) as [s' p'] eqn:Esc. simpl in Hs, Hp. simpl.
+      inversion Hstep as [x t o Hph|x t o Hph Hl|x t o Hph Hl|x t r Hph Hl|x t r Hph]; subst; simpl.
+      + split; [reflexivity|]. intros t1 o1. unfold set_ph.
+        destruct (Nat.eqb t1 t) eqn:Et.
+        * intros [X|X]; [inversion X; reflexivity|discriminate X].
+        * apply Hp.
+      + split; [reflexivity|]. intros t1 o1. unfold set_ph.
+        destruct (Nat.eqb t1 t) eqn:Et.
+        * apply Nat.eqb_eq in Et. subst t1.
+          intros [X|X]; [discriminate X|inversion X; subst]. apply Hp. left; exact Hph.
+        * apply Hp.
+      + rewrite (Hp t o (or_intror Hph)). simpl. split; [reflexivity|].
+        intros t1 o1. unfold set_ph.
+        destruct (Nat.eqb t1 t) eqn:Et.
+        * intros [X|X]; discriminate X.
+        * apply Hp.
+      + split; [reflexivity|]. intros t1 o1. unfold set_ph.
+        destruct (Nat.eqb t1 t) eqn:Et.
+        * intros [X|X]; discriminate X.
+        * apply Hp.
+      + split; [reflexivity|]. intros t1 o1. unfold set_ph.
+        destruct (Nat.eqb t1 t) eqn:Et.
+        * intros [X|X]; discriminate X.
+        * apply Hp.
+  Qed.
+
+  (* a call whose body ran has its entry, with its result, in the linearization *)
+  Lemma mexec_ran : forall s0 ex st, mexec (minit s0) ex st ->
+      forall t r, ph st t = Ran r \/ ph st t = Unlocked r ->
+                  exists o, In (t, o, r) (lin s0 (fun _ => None) ex).
+  Proof.
+    intros s0 ex st H. remember (minit s0) as si eqn:Esi.
+    induction H as [s|s ex s1 e s2 Hex IH Hstep].
+    - subst s. simpl. intros t r [X|X]; discriminate X.
+    - specialize (IH Esi). subst s.
+      destruct (mexec_inv _ _ _ Hex) as [Hs Hp].
+      intros t1 r1. rewrite lin_app.
+      destruct (scan s0 (fun _ => None) ex) as [s' p'] eqn:Esc. simpl in Hs, Hp. simpl.
+      assert (Keep : (ph s1 t1 = Ran r1 \/ ph s1 t1 = Unlocked r1) ->
+                     exists o, In (t1, o, r1) (lin s0 (fun _ => None) ex ++ lin s' p' [e])).
+      { intros X. destruct (IH _ _ X) as [o Ho]. exists o. apply in_or_app. left; exact Ho. }
+      inversion Hstep as [x t o Hph|x t o Hph Hl|x t o Hph Hl|x t r Hph Hl|x t r Hph]; subst;
+        simpl ph; unfold set_ph; destruct (Nat.eqb t1 t) eqn:Et; try exact Keep.
+      + intros [X|X]; discriminate X.
+      + intros [X|X]; discriminate X.
+      + apply Nat.eqb_eq in Et. subst t1.
+        intros [X|X]; [|discriminate X]. inversion X; subst.
+        exists o. apply in_or_app. right. simpl.
+        rewrite (Hp t o (or_intror Hph)). left. reflexivity.
+      + apply Nat.eqb_eq in Et. subst t1.
+        intros [X|X]; [discriminate X|]. inversion X; subst.
+        apply Keep. left; exact Hph.
+      + intros [X|X]; discriminate X.
+  Qed.
+
   (* (1) the shared state after any execution is the sequential model run over the
          linearization, and every call in it carries exactly the sequential result *)
   Theorem lin_is_sequential : forall s0 ex s,
@@ -192,14 +808,197 @@ Section Lin.
       let l := lin s0 (fun _ => None) ex in
       sigma s = fold_left (fun st c => fst (step st (snd (fst c)))) l s0 /\
       map snd l = seq_results s0 (map fst l).
-  Admitted.
+  Proof.
+    intros s0 ex s H l. subst l. split.
+    - destruct (mexec_inv _ _ _ H) as [Hs _]. rewrite Hs. apply scan_fold.
+    - apply lin_results.
+  Qed.
 
   (* (2) every returned result is the one its body computed: a CRet t r is preceded by a
          body of t whose linearization entry carries r *)
   Theorem returned_result_is_linearized : forall s0 ex s t r,
       mexec (minit s0) (ex ++ [CRet t r]) s ->
       exists o, In (t, o, r) (lin s0 (fun _ => None) ex).
-  Admitted.
+  Proof.
+    intros s0 ex s t r H.
+    inversion H as [x E1 E2|x ex0 s1 e s2 Hex Hstep E1 E2 E3].
+    - exfalso. symmetry in E2. apply app_eq_nil in E2. destruct E2 as [_ E2]. discriminate E2.
+    - apply app_inj_tail in E2. destruct E2 as [E2 E4]. subst.
+      inversion Hstep as [| | | |x t' r' Hph]; subst.
+      eapply mexec_ran; [exact Hex|]. right; exact Hph.
+  Qed.
+
+  (* ---- helpers: positions in an execution extended at the end ---- *)
+  Lemma nth_snoc_lt : forall (ex : list cev) e c, c < length ex ->
+      nth_error (ex ++ [e]) c = nth_error ex c.
+  Proof. intros ex e c H. apply nth_error_app1. exact H. Qed.
+
+  Lemma nth_snoc_eq : forall (ex : list cev) e, nth_error (ex ++ [e]) (length ex) = Some e.
+  Proof. intros ex e. rewrite nth_error_app2 by lia. rewrite Nat.sub_diag. reflexivity. Qed.
+
+  Lemma nth_snoc_some : forall (ex : list cev) e a x,
+      nth_error ex a = Some x -> nth_error (ex ++ [e]) a = Some x.
+  Proof.
+    intros ex e a x H. rewrite nth_error_app1; [exact H|].
+    apply nth_error_Some. rewrite H. discriminate.
+  Qed.
+
+  Lemma nth_snoc_cases : forall (ex : list cev) e c x, nth_error (ex ++ [e]) c = Some x ->
+      (c < length ex /\ nth_error ex c = Some x) \/ (c = length ex /\ x = e).
+  Proof.
+    intros ex e c x H. destruct (lt_dec c (length ex)) as [Hlt|Hge].
+    - left. rewrite nth_error_app1 in H by exact Hlt. split; assumption.
+    - right. rewrite nth_error_app2 in H by lia.
+      destruct (c - length ex) as [|d] eqn:Ed; simpl in H.
+      + inversion H; subst. split; [lia|reflexivity].
+      + destruct d; discriminate H.
+  Qed.
+
+  (* no invoke of t after position a *)
+  Definition noinv (ex : list cev) (t : tid) (a : nat) : Prop :=
+    forall c, a < c -> forall o', nth_error ex c <> Some (CInv t o').
+
+  (* what the phase of a thread says about the past of the execution *)
+  Definition tinv (ex : list cev) (t : tid) (p : phase) : Prop :=
+    match p with
+    | Idle => True
+    | Invoked o | Locked o =>
+        exists a, nth_error ex a = Some (CInv t o) /\ noinv ex t a
+    | Ran _ | Unlocked _ =>
+        exists a b o, a < b /\ b < length ex /\ nth_error ex a = Some (CInv t o) /\
+                      nth_error ex b = Some (CBody t) /\ noinv ex t a
+    end.
+
+  Lemma noinv_ext : forall ex t a e, noinv ex t a -> (forall o, e <> CInv t o) ->
+      noinv (ex ++ [e]) t a.
+  Proof.
+    intros ex t a e H He c Hc o' Hn.
+    apply nth_snoc_cases in Hn. destruct Hn as [[_ Hn]|[_ Hn]].
+    - apply (H c Hc o' Hn).
+    - apply (He o'). symmetry. exact Hn.
+  Qed.
+
+  Lemma tinv_ext : forall ex t p e, tinv ex t p -> (forall o, e <> CInv t o) ->
+      tinv (ex ++ [e]) t p.
+  Proof.
+    intros ex t p e H He. destruct p as [|o|o|r|r]; simpl in *.
+    - exact I.
+    - destruct H as [a [Ha Hn]]. exists a. split; [apply nth_snoc_some; exact Ha|].
+      apply noinv_ext; assumption.
+    - destruct H as [a [Ha Hn]]. exists a. split; [apply nth_snoc_some; exact Ha|].
+      apply noinv_ext; assumption.
+    - destruct H as [a [b [o [Hab [Hb [Ha [Hbb Hn]]]]]]]. exists a, b, o.
+      split; [exact Hab|]. split; [rewrite app_length; simpl; lia|].
+      split; [apply nth_snoc_some; exact Ha|]. split; [apply nth_snoc_some; exact Hbb|].
+      apply noinv_ext; assumption.
+    - destruct H as [a [b [o [Hab [Hb [Ha [Hbb Hn]]]]]]]. exists a, b, o.
+      split; [exact Hab|]. split; [rewrite app_length; simpl; lia|].
+      split; [apply nth_snoc_some; exact Ha|]. split; [apply nth_snoc_some; exact Hbb|].
+      apply noinv_ext; assumption.
+  Qed.
+
+  Lemma body_inv : forall s0 ex st, mexec (minit s0) ex st ->
+      (forall t, tinv ex t (ph st t)) /\
+      (forall t i r, nth_error ex i = Some (CRet t r) ->
+         exists a b o, a < b /\ b < i /\ nth_error ex a = Some (CInv t o) /\
+                       nth_error ex b = Some (CBody t) /\
+                       (forall c, a < c -> c < i -> forall o', nth_error ex c <> Some (CInv t o'))).
+  Proof.
+    intros s0 ex st H. remember (minit s0) as si eqn:Esi.
+    induction H as [s|s ex s1 e s2 Hex IH Hstep].
+    - subst s. split.
+      + intros t. simpl. exact I.
+      + intros t i r Hn. destruct i; discriminate Hn.
+    - destruct (IH Esi) as [IH1 IH2]. clear IH. split.
+      + (* phases *)
+        intros t1.
+        inversion Hstep as [x t o Hph|x t o Hph Hl|x t o Hph Hl|x t r Hph Hl|x t r Hph]; subst;
+          simpl ph; unfold set_ph; destruct (Nat.eqb t1 t) eqn:Et.
+        * apply Nat.eqb_eq in Et. subst t1. simpl. exists (length ex).
+          split; [apply nth_snoc_eq|].
+          intros c Hc o' Hn.
+          assert (Hlt : c < length (ex ++ [CInv t o])) by (apply nth_error_Some; rewrite Hn; discriminate).
+          rewrite app_length in Hlt. simpl in Hlt. lia.
+        * apply tinv_ext; [apply IH1|]. intros o0 X. inversion X; subst.
+          rewrite Nat.eqb_refl in Et. discriminate Et.
+        * apply Nat.eqb_eq in Et. subst t1.
+          pose proof (IH1 t) as Ht. rewrite Hph in Ht.
+          apply (tinv_ext _ _ _ (CAcq t)) in Ht; [exact Ht|intros o0 X; discriminate X].
+        * apply tinv_ext; [apply IH1|]. intros o0 X. discriminate X.
+        * apply Nat.eqb_eq in Et. subst t1.
+          pose proof (IH1 t) as Ht. rewrite Hph in Ht. simpl in Ht.
+          destruct Ht as [a [Ha Hn]]. simpl. exists a, (length ex), o.
+          assert (Hlt : a < length ex) by (apply nth_error_Some; rewrite Ha; discriminate).
+          split; [exact Hlt|]. split; [rewrite app_length; simpl; lia|].
+          split; [apply nth_snoc_some; exact Ha|]. split; [apply nth_snoc_eq|].
+          apply noinv_ext; [exact Hn|]. intros o0 X. discriminate X.
+        * apply tinv_ext; [apply IH1|]. intros o0 X. discriminate X.
+        * apply Nat.eqb_eq in Et. subst t1.
+          pose proof (IH1 t) as Ht. rewrite Hph in Ht.
+          apply (tinv_ext _ _ _ (CRel t)) in Ht; [exact Ht|intros o0 X; discriminate X].
+        * apply tinv_ext; [apply IH1|]. intros o0 X. discriminate X.
+        * simpl. exact I.
+        * apply tinv_ext; [apply IH1|]. intros o0 X. discriminate X.
+      + (* returns *)
+        intros t i r Hn. apply nth_snoc_cases in Hn. destruct Hn as [[Hi Hn]|[Hi He]].
+        * destruct (IH2 t i r Hn) as [a [b [o [Hab [Hbi [Ha [Hb Hno]]]]]]].
+          exists a, b, o. split; [exact Hab|]. split; [exact Hbi|].
+          split; [apply nth_snoc_some; exact Ha|]. split; [apply nth_snoc_some; exact Hb|].
+          intros c Hac Hci o'. rewrite nth_snoc_lt by lia. apply Hno; assumption.
+        * subst e i.
+          inversion Hstep as [| | | |x t' r' Hph]; subst.
+          pose proof (IH1 t) as Ht. rewrite Hph in Ht. simpl in Ht.
+          destruct Ht as [a [b [o [Hab [Hb [Ha [Hbb Hno]]]]]]].
+          exists a, b, o. split; [exact Hab|]. split; [exact Hb|].
+          split; [apply nth_snoc_some; exact Ha|]. split; [apply nth_snoc_some; exact Hbb|].
+          intros c Hac Hci o'. rewrite nth_snoc_lt by exact Hci. apply Hno; exact Hac.
+  Qed.
+
+  (* the lock is held by the thread of the last unreleased CAcq; and the theorem itself *)
+  Lemma lock_inv : forall s0 ex st, mexec (minit s0) ex st ->
+      (forall i t, nth_error ex i = Some (CAcq t) ->
+                   (forall c, i < c -> nth_error ex c <> Some (CRel t)) -> lockh st = Some t) /\
+      (forall i j t, i < j -> nth_error ex i = Some (CAcq t) ->
+         (forall c, i < c -> c <= j -> nth_error ex c <> Some (CRel t)) ->
+         forall c t', i < c -> c <= j -> t' <> t ->
+                      nth_error ex c <> Some (CAcq t') /\ nth_error ex c <> Some (CBody t') /\
+                      nth_error ex c <> Some (CRel t')).
+  Proof.
+    intros s0 ex st H. remember (minit s0) as si eqn:Esi.
+    induction H as [s|s ex s1 e s2 Hex IH Hstep].
+    - split.
+      + intros i t Hn. destruct i; discriminate Hn.
+      + intros i j t _ Hn. destruct i; discriminate Hn.
+    - destruct (IH Esi) as [J T]. clear IH. split.
+      + intros i t Hn Hno. apply nth_snoc_cases in Hn. destruct Hn as [[Hi Hn]|[Hi He]].
+        * assert (Hl : lockh s1 = Some t).
+          { apply (J i t Hn). intros c Hc X. apply (Hno c Hc). apply nth_snoc_some. exact X. }
+          assert (Hne : e <> CRel t).
+          { intros X. apply (Hno (length ex) Hi). rewrite nth_snoc_eq, X. reflexivity. }
+          inversion Hstep as [x t0 o Hph|x t0 o Hph Hl0|x t0 o Hph Hl0|x t0 r Hph Hl0|x t0 r Hph];
+            subst; simpl; try exact Hl.
+          -- congruence.
+          -- exfalso. apply Hne. congruence.
+        * subst e. inversion Hstep; subst; simpl. reflexivity.
+      + intros i j t Hij Hn Hno c t' Hic Hcj Ht.
+        destruct (lt_eq_lt_dec c (length ex)) as [[Hc|Hc]|Hc].
+        * rewrite nth_snoc_lt by exact Hc.
+          assert (Hi : i < length ex) by lia.
+          rewrite nth_snoc_lt in Hn by exact Hi.
+          apply (T i c t Hic Hn); [|exact Hic|apply le_n|exact Ht].
+          intros c' H1 H2. rewrite <- (nth_snoc_lt ex e c') by lia. apply Hno; lia.
+        * subst c. rewrite nth_snoc_eq.
+          rewrite nth_snoc_lt in Hn by exact Hic.
+          assert (Hl : lockh s1 = Some t).
+          { apply (J i t Hn). intros c' H1 X.
+            assert (H2 : c' < length ex) by (apply nth_error_Some; rewrite X; discriminate).
+            apply (Hno c'); [exact H1|lia|]. apply nth_snoc_some. exact X. }
+          inversion Hstep as [x t0 o Hph|x t0 o Hph Hl0|x t0 o Hph Hl0|x t0 r Hph Hl0|x t0 r Hph];
+            subst; (split; [|split]); intros X; inversion X; subst; congruence.
+        * assert (Hnone : nth_error (ex ++ [e]) c = None).
+          { apply nth_error_None. rewrite app_length. simpl. lia. }
+          rewrite Hnone. split; [|split]; discriminate.
+  Qed.
 
   (* (3) real-time order: if a call returned before another was invoked, its body — its
          linearization point — comes first.  Stated on positions in the execution: the body of
@@ -209,7 +1008,10 @@ Section Lin.
       forall i r, nth_error ex i = Some (CRet t r) ->
       exists a b o, a < b /\ b < i /\ nth_error ex a = Some (CInv t o) /\ nth_error ex b = Some (CBody t) /\
                     (forall c, a < c -> c < i -> forall o', nth_error ex c <> Some (CInv t o')).
-  Admitted.
+  Proof.
+    intros s0 ex s t H i r Hn.
+    destruct (body_inv _ _ _ H) as [_ B]. apply (B t i r Hn).
+  Qed.
 
   (* (4) mutual exclusion: no two bodies overlap — between a thread's CAcq and its CRel no
          other thread performs CAcq, CBody or CRel.  (A range method is one body, so no thread
@@ -221,5 +1023,8 @@ Section Lin.
       forall c t', i < c -> c <= j -> t' <> t ->
                    nth_error ex c <> Some (CAcq t') /\ nth_error ex c <> Some (CBody t') /\
                    nth_error ex c <> Some (CRel t').
-  Admitted.
+  Proof.
+    intros s0 ex s i j t H Hij Hn Hno c t' Hic Hcj Ht.
+    destruct (lock_inv _ _ _ H) as [_ T]. apply (T i j t Hij Hn Hno c t' Hic Hcj Ht).
+  Qed.
 End Lin.
